@@ -24,6 +24,77 @@ NPROC = 16
 ENV = dict(os.environ, CARGO_NET_OFFLINE="true")
 
 # ------------------------------------------------------------------------------------------------
+# source drift: how much of the implementation differs from the tree the committed evidence was produced on
+
+
+def _norm_source(txt):
+    """Comments and whitespace do not change behaviour; everything else may."""
+    txt = re.sub(r"/\*.*?\*/", "", txt, flags=re.S)
+    out = []
+    for line in txt.split("\n"):
+        line = re.sub(r"//.*$", "", line) if '"' not in line else line
+        line = line.strip()
+        if line:
+            out.append(re.sub(r"\s+", " ", line))
+    return "\n".join(out)
+
+
+SOURCE_ROOTS = ("rotala/src", "rotala/Cargo.toml", "example_clients/alator/src", "example_clients/alator/Cargo.toml",
+                "Cargo.toml", "Cargo.lock")
+
+
+def source_fingerprint():
+    """{relative path: sha256 of the comment- and whitespace-normalised text} over the crates' sources."""
+    fp = {}
+    for root in SOURCE_ROOTS:
+        p = os.path.join(REPO, root)
+        files = [p] if os.path.isfile(p) else sorted(
+            os.path.join(d, f) for d, _, fs in os.walk(p) for f in fs if f.endswith(".rs"))
+        for f in files:
+            try:
+                txt = open(f, errors="replace").read()
+            except OSError:
+                continue
+            txt = _norm_source(txt) if f.endswith(".rs") else txt
+            fp[os.path.relpath(f, REPO)] = hashlib.sha256(txt.encode()).hexdigest()
+    return fp
+
+
+def source_drift():
+    """Files whose normalised text differs from source_fingerprint.json (committed; written only by
+    tools/fingerprint.py, never by a check)."""
+    try:
+        rec = json.load(open(os.path.join(VERIF, "source_fingerprint.json")))["files"]
+    except (OSError, ValueError, KeyError):
+        return None
+    now = source_fingerprint()
+    return sorted(k for k in set(rec) | set(now) if rec.get(k) != now.get(k))
+
+
+_DRIFT = "unset"
+
+
+def drift():
+    global _DRIFT
+    if _DRIFT == "unset":
+        _DRIFT = source_drift()
+    return _DRIFT
+
+
+def scale():
+    """The quick tier explores more when the implementation is not the tree the theorems were last tied to:
+    a changed source is exactly the situation the correspondence exists for."""
+    if os.environ.get("VERIF_SCALE"):
+        return max(1, int(os.environ["VERIF_SCALE"]))
+    d = drift()
+    return 4 if d else 1
+
+
+def tier_size(tier, quick, thorough):
+    return thorough if tier == "thorough" else min(thorough, quick * scale())
+
+
+# ------------------------------------------------------------------------------------------------
 # floats
 
 
@@ -448,6 +519,8 @@ class Result:
             tb.append("standard-library axioms (none declared here): " + ", ".join(obligations["axioms"]))
         cov["trusted_base"] = tb
         cov["notes"] = self.notes
+        cov["source_drift"] = drift()
+        cov["quick_scale"] = scale()
         ev = dict(property_id=self.prop, tier=self.tier, seed=self.seed, level=level, coverage=cov,
                   assumptions=self.assumptions, wall_s=round(time.time() - self.t0, 2),
                   violations=len(self.violations))
